@@ -631,6 +631,8 @@ class Verifier:
                 return py_eq(a, b)
             if ta == INT and tb == INT:
                 return py_eq(a, b)      # enum singletons modelled as small integers
+            if ta == ANY and tb == ANY and a.t == ANY and b.t == ANY:
+                return a.z == b.z       # opaque values are identities (sentinel tests: x is _NO_DEFAULT)
         if isinstance(a, MCls) and isinstance(b, MCls):
             return z3.BoolVal(a.name == b.name)
         raise Unsupported('`is` between %r and %r' % (a, b))
